@@ -502,6 +502,7 @@ fn probe(host: &Host, content: Option<&[u8]>, instants: &[i64], rng_salt: u64, s
 pub struct Layout {
     pub headers: Vec<usize>,      // offset of each "TZif" header
     pub type_index_arrays: Vec<(usize, usize)>, // (offset, len) of transition type arrays
+    pub time_arrays: Vec<(usize, usize, usize)>, // (offset, count, width) of transition time arrays
     pub typecnt: Vec<usize>,
     pub footer_start: usize,
 }
@@ -517,10 +518,11 @@ pub fn layout(bytes: &[u8]) -> Option<Layout> {
     let v = bytes[4];
     let (isut, isstd, leap, time, typ, chr) = (rd(20)?, rd(24)?, rd(28)?, rd(32)?, rd(36)?, rd(40)?);
     arrays.push((44 + time * 4, time));
+    let mut time_arrays = vec![(44usize, time, 4usize)];
     typecnts.push(typ);
     let end1 = 44 + time * 5 + typ * 6 + chr + leap * 8 + isstd + isut;
     if v == 0 {
-        return Some(Layout { headers, type_index_arrays: arrays, typecnt: typecnts, footer_start: bytes.len() });
+        return Some(Layout { headers, type_index_arrays: arrays, time_arrays, typecnt: typecnts, footer_start: bytes.len() });
     }
     if bytes.len() < end1 + 44 {
         return None;
@@ -528,12 +530,13 @@ pub fn layout(bytes: &[u8]) -> Option<Layout> {
     headers.push(end1);
     let (isut, isstd, leap, time, typ, chr) = (rd(end1 + 20)?, rd(end1 + 24)?, rd(end1 + 28)?, rd(end1 + 32)?, rd(end1 + 36)?, rd(end1 + 40)?);
     arrays.push((end1 + 44 + time * 8, time));
+    time_arrays.push((end1 + 44, time, 8));
     typecnts.push(typ);
     let end2 = end1 + 44 + time * 9 + typ * 6 + chr + leap * 12 + isstd + isut;
     if end2 > bytes.len() {
         return None;
     }
-    Some(Layout { headers, type_index_arrays: arrays, typecnt: typecnts, footer_start: end2 })
+    Some(Layout { headers, type_index_arrays: arrays, time_arrays, typecnt: typecnts, footer_start: end2 })
 }
 
 fn report(seed: u64, run: u64, family: &str, base: &[u8], fault: Option<Op>, lookup: Op, f: Fail) -> Violation {
@@ -744,6 +747,44 @@ fn enumerate_base(seed: u64, run: u64, base: &[u8], exhaustive_bits: bool, rng: 
             // typecnt := 0 (header field 4)
             try_fault(Op::SetBytes { offset: l.headers[k] + 36, data: be32(0) }, "F6-typecnt-zero", stats, &mut n);
         }
+        // F11 transition-table order: duplicated, swapped, reversed, constant and extreme times
+        // (a lost or repeated write inside the sorted table)
+        for (o, cnt, w) in l.time_arrays.iter().cloned() {
+            if cnt < 2 {
+                continue;
+            }
+            let rd = |k: usize| base[o + k * w..o + (k + 1) * w].to_vec();
+            let picks: Vec<usize> = if cnt <= 12 { (0..cnt).collect() } else { (0..8).map(|_| rng.usize(cnt)).chain([0, 1, cnt - 2, cnt - 1]).collect() };
+            for &k in &picks {
+                // time[k] := its neighbour (duplicate record), := the first, := the last
+                for src in [k.saturating_sub(1), (k + 1).min(cnt - 1), 0, cnt - 1] {
+                    if src != k {
+                        try_fault(Op::SetBytes { offset: o + k * w, data: rd(src) }, "F11-table-order", stats, &mut n);
+                    }
+                }
+                // extreme values
+                for v in [vec![0x80u8; 1], vec![0x7F; 1]] {
+                    let mut d = vec![if v[0] == 0x80 { 0u8 } else { 0xFF }; w];
+                    d[0] = v[0];
+                    try_fault(Op::SetBytes { offset: o + k * w, data: d }, "F11-table-order", stats, &mut n);
+                }
+            }
+            // the whole table reversed; the whole table set to one value; last := first + small
+            let mut rev = Vec::with_capacity(cnt * w);
+            for k in (0..cnt).rev() {
+                rev.extend_from_slice(&rd(k));
+            }
+            try_fault(Op::SetBytes { offset: o, data: rev }, "F11-table-order", stats, &mut n);
+            let mut same = Vec::with_capacity(cnt * w);
+            for _ in 0..cnt {
+                same.extend_from_slice(&rd(cnt / 2));
+            }
+            try_fault(Op::SetBytes { offset: o, data: same }, "F11-table-order", stats, &mut n);
+            let mut near = rd(0);
+            let lastb = near.len() - 1;
+            near[lastb] = near[lastb].wrapping_add(1);
+            try_fault(Op::SetBytes { offset: o + (cnt - 1) * w, data: near }, "F11-table-order", stats, &mut n);
+        }
         // F4 single bit flips: all of both headers and the footer, a sample of the data
         let mut bits: Vec<usize> = Vec::new();
         for h in &l.headers {
@@ -862,7 +903,7 @@ fn gen_hostile_footer(rng: &mut Rng, corpus_footers: &[String]) -> Vec<u8> {
         }
         0..=5 => {
             // grammar-shaped with hostile numbers
-            let name = *rng.pick(&["CET", "<+0330>", "<-03>", "A", "", "<", "<>", "LONGNAME", "X1"]);
+            let name = *rng.pick(&["CET", "<+0330>", "<-03>", "A", "", "<", "<>", "LONGNAME", "X1", "<+03\u{20ac}>", "<\u{e9}\u{e9}>", "<\u{1f600}>", "C\u{e9}T", "<\u{e9}+03>"]);
             let off = match rng.below(3) {
                 0 => "-1".to_string(),
                 1 => pick_num(rng),
@@ -922,11 +963,16 @@ fn gen_hostile_footer(rng: &mut Rng, corpus_footers: &[String]) -> Vec<u8> {
             let f = rng.pick(corpus_footers).clone();
             let mut b = f.into_bytes();
             let i = rng.usize(b.len() + 1);
-            let ins: &[u8] = match rng.below(4) {
+            let ins: &[u8] = match rng.below(8) {
                 0 => b"\0",
                 1 => b"\xFF",
                 2 => b"\xC3",
-                _ => b"\n",
+                3 => b"\n",
+                // valid multi-byte UTF-8 (2, 3 and 4 bytes)
+                4 => "\u{e9}".as_bytes(),
+                5 => "\u{20ac}".as_bytes(),
+                6 => "\u{1f600}".as_bytes(),
+                _ => "\u{e9}\u{e9}".as_bytes(),
             };
             for (k, x) in ins.iter().enumerate() {
                 b.insert(i + k, *x);
@@ -979,6 +1025,14 @@ fn footer_single_edits(f: &str) -> Vec<Vec<u8>> {
         for &c in EDIT_ALPHABET {
             let mut r = b.to_vec();
             r.insert(i, c);
+            out.push(r);
+        }
+        // valid multi-byte characters at every position (only where the result is still UTF-8,
+        // i.e. everywhere in an ASCII footer)
+        for ins in ["\u{e9}", "\u{20ac}", "\u{e9}\u{e9}"] {
+            let mut r = b[..i].to_vec();
+            r.extend_from_slice(ins.as_bytes());
+            r.extend_from_slice(&b[i..]);
             out.push(r);
         }
     }
